@@ -13,7 +13,7 @@ import z3
 from .sym import simp
 
 FEAS_TIMEOUT_MS = int(os.environ.get("PYVC_FEAS_MS", "400"))
-COVER_TIMEOUT_MS = int(os.environ.get("PYVC_COVER_MS", "2500"))
+COVER_TIMEOUT_MS = int(os.environ.get("PYVC_COVER_MS", "10000"))
 VC_TIMEOUT_MS = int(os.environ.get("PYVC_VC_MS", "6000"))
 EXT_TIMEOUT_S = float(os.environ.get("PYVC_EXT_S", "30"))
 CVC5 = "/usr/bin/cvc5"
@@ -262,7 +262,23 @@ class Path:
         return r, s
 
     def feasible(self, cond):
-        r, _ = self._check([cond], FEAS_TIMEOUT_MS, inst=False)
+        """incremental feasibility query: the path condition is kept in one solver to which facts
+        are only ever added; the condition is passed as an assumption"""
+        fs = self.__dict__.get("_fs")
+        if fs is None:
+            fs = _mk_solver(FEAS_TIMEOUT_MS)
+            self.__dict__["_fs"] = fs
+            self.__dict__["_fs_n"] = 0
+        n = self.__dict__["_fs_n"]
+        if n < len(self.pc):
+            for f in self.pc[n:]:
+                fs.add(f)
+            self.__dict__["_fs_n"] = len(self.pc)
+        t0 = time.time()
+        if isinstance(cond, bool):
+            cond = z3.BoolVal(cond)
+        r = fs.check(cond)
+        self.solver_time += time.time() - t0
         return r != z3.unsat
 
     def infer_int(self, expr):
@@ -404,5 +420,16 @@ class Path:
 
     def final_cover(self):
         """Is the completed path's condition satisfiable (non-vacuity)?"""
+        # quick attempt on the incremental solver; a longer one only while no cover is known yet
+        fs = self.__dict__.get("_fs")
+        if fs is not None:
+            self.feasible(True)
+            try:
+                if fs.check() == z3.sat:
+                    return True
+            except Exception:
+                pass
+        if self.opts.get("have_cover"):
+            return False
         r, _ = self._check([], COVER_TIMEOUT_MS, inst=False)
         return r == z3.sat
